@@ -9,7 +9,7 @@ import itertools
 import random
 
 from . import gen
-from .pairing import UNDECODED_RFA as UNDECODED_RFA_NAME, World, validate_streams, describe
+from .pairing import UNDECODED_RFA as UNDECODED_RFA_NAME, World, validate_streams, describe, new_parser
 from .tlc import run_tlc
 from .c04 import replay  # noqa
 
@@ -152,6 +152,41 @@ def run(ctx):
                           % (d_, got[d_] if d_ < len(got) else None, want[d_] if d_ < len(want) else None),
                           {'kind': 'code->spec', 'stream': describe(w, stream)})
     ctx.extra['composites_through_thread_filter'] = napi
+    # SCALE: the nested records of a composite come after as many unrelated records as a size-like constant of the parser's
+    # sources suggests: the composite still reads them
+    from . import mine
+    nscale = 0
+    for h in mine.size_hints(256):
+        for n_ in (h - 1, h + 3):
+            w = World(rnd, big_tids=False)
+            filler = w.sys('BSC_getpid', 3, 1)
+            cf = w.concrete(filler, 2)
+            for kind_ in ('vmf', 'launch', 'perf'):
+                head = {'vmf': [w.vmf(1, 1)], 'launch': [w.launch(1, 1)], 'perf': [w.perf(1, 1, ti=True, us=True)]}[kind_]
+                tail = {'vmf': [w.rfa(1, 33, 5), w.vmf(2, 1, 0, 2)], 'launch': [w.img(1, 2, 7), w.launch(2, 1)],
+                        'perf': [w.uhdr(1, 2), w.udata(1, [1, 2, 3, 4]), w.thd(1, 44, 1), w.perf(2, 1, ti=True, us=True)]}[kind_]
+                texts = []
+                for nfill in (0, n_):
+                    p_ = new_parser(w)
+                    out = None
+                    try:
+                        k = 0
+                        for a in head:
+                            k += 1
+                            p_.feed(w.concrete(a, k))
+                        for _ in range(nfill):
+                            p_.feed(cf)
+                        for a in tail:
+                            k += 1
+                            out = p_.feed(w.concrete(a, k + nfill))
+                        texts.append(None if out is None else str(out))
+                    except Exception as ex:
+                        texts.append('RAISED ' + repr(ex))
+                nscale += 1
+                if texts[0] != texts[1]:
+                    ctx.violation('C20/long-composite@%s' % kind_, '%s composite with %d unrelated records before its nested records reads %r, without them %r'
+                                  % (kind_, n_, texts[1], texts[0]), {'kind': 'code->spec', 'stream': []})
+    ctx.extra['long_composites'] = nscale
     validate_streams(ctx, cases, 'full', 'c20val')
     ctx.sample({'case': cases[40][0], 'events': [dict(a.abs) for a in cases[40][2]]})
     ctx.extra['code_to_spec'] = {'windows': len(cases)}
